@@ -13,7 +13,7 @@ for id in $ids; do
   (cd /repo && git ls-files -z | xargs -0 cp --parents -t $w/repo)
   cp /verif/known_findings.json $w/verif/ 2>/dev/null
   if ! (cd $w/repo && patch -p1 -s < /verif/seeded/$id/patch.diff); then echo "$id: PATCH-FAILED"; rm -rf $w; continue; fi
-  out=$(CBGP_REPO=$w/repo CBGP_VERIF=$w/verif /verif/bin/cbgpcheck check $props 2>&1)
+  out=$(CBGP_REPO=$w/repo CBGP_VERIF=$w/verif ${BIN:-/verif/bin/cbgpcheck} check $props 2>&1)
   fired=$(echo "$out" | grep -o 'VIOLATION property=C[0-9]*' | sed 's/VIOLATION property=//' | tr '\n' ' ')
   own=$(python3 -c "import json;print(json.load(open(\"/verif/seeded/$id/meta.json\"))[\"property\"])")
   mark="MISSED"
